@@ -365,6 +365,14 @@ func checkC10(c *ev.Ctx) {
 		cin, plain, target, expectOK := s.setup(dir, c.Seed)
 		res := runGxz(c, dir, s.args(dir), j.inj, s.Stdout, nil)
 		snap := dirSnapshot(dir)
+		// crash recovery: after a run that was killed the user runs the same command again in
+		// the directory as it was left (debris included); judged below
+		var res2 *gxzResult
+		var snap2 map[string][]byte
+		if j.inj.Mode == "kill-after" && res.Killed && !s.Stdout {
+			r2 := runGxz(c, dir, s.args(dir), inject{}, false, nil)
+			res2, snap2 = &r2, dirSnapshot(dir)
+		}
 		os.RemoveAll(dir)
 		if j.inj.Mode == "signal" && res.RunErr == "" && res.Exit < 0 {
 			// the stepper lost the exit status of a process that died from the signal
@@ -419,6 +427,34 @@ func checkC10(c *ev.Ctx) {
 		for _, e := range res.Events {
 			if strings.HasPrefix(e.Sys, "rename") && e.Ret == 0 && e.Path2 == filepath.Join(dir, s.Name) {
 				viol("I1-target-is-input", "gxz renamed its output over the input path")
+			}
+		}
+		if res2 != nil && res2.RunErr == "" && res2.Exit >= 0 {
+			// second run after the kill: the data must still exist in a complete form, the input
+			// path must hold nothing but the input, and success may only be claimed with a
+			// complete target in place (the run may also refuse, e.g. because of the debris)
+			c.Count("reruns_after_kill", 1)
+			in2, in2OK := snap2[s.Name]
+			in2Intact := in2OK && bytes.Equal(in2, cin)
+			t2, t2OK := []byte(nil), false
+			if target != "" {
+				t2, t2OK = snap2[target]
+			}
+			t2Complete := t2OK && s.complete(t2, cin, plain)
+			det["rerun_exit"] = res2.Exit
+			det["rerun_stderr"] = clipStr(res2.Stderr, 300)
+			det["directory_after_rerun"] = snapNames(snap2)
+			if in2OK && !in2Intact {
+				viol("I2-input-modified", "after the re-run that followed the killed run the input path holds different bytes")
+			}
+			if !in2Intact && !t2Complete {
+				viol("I1-data-lost", fmt.Sprintf("killed at %s, then run again (exit %d): neither the input (present=%v) nor a complete target %q (present=%v) exists", j.inj, res2.Exit, in2OK, target, t2OK))
+			}
+			if res2.Exit == 0 && !t2Complete {
+				viol("I4-exit0-target-incomplete", fmt.Sprintf("killed at %s, then run again: exit 0 but target %q present=%v is not the complete output", j.inj, target, t2OK))
+			}
+			if res2.Exit == 0 {
+				c.Count("reruns_after_kill_succeeded", 1)
 			}
 		}
 		if res.Killed || (j.inj.Mode == "signal" && res.Exit >= 128) {
